@@ -2,6 +2,7 @@
 import os
 import common as c
 import thrift_rt as rt
+import gencheck
 
 
 def run(rep, tier, seed, replay):
@@ -44,4 +45,5 @@ def run(rep, tier, seed, replay):
     rep.assumptions = ["memory safety as such is not decided (DESIGN.md 7): an out-of-bounds access that does not show in the cursor, "
                        "the guard bytes or the decoded value is not detected",
                        "preconditions as documented: buffer >= size computed with TBinaryProtocol<()>, input a complete well-formed encoding"]
+    rep.cov.update(gencheck.add_tagged(rep, "C11", tier, seed))
     return "model_checking"
